@@ -17,7 +17,8 @@ What is modelled (the code as it exists after the two `fix:` commits for F-C04-1
   `address = <Address> + <pIndex Offset=..>selector</pIndex>` where the selector is another
   integer-valued node of the graph read through the same (cached) path, constant length,
   `Cachable`, `AccessMode`, `pInvalidator*`, `pPort`; `Integer` with `pValue` and `pValueCopy*`; `Command`
-  with `pValue` and constant `CommandValue`; `Port`.
+  with `pValue` and constant `CommandValue`; `Boolean` (`pValue`, `OnValue`, `OffValue`);
+  `Enumeration` (`pValue`, entry values); `Port`.
 * a scripted device: byte image, static "no access" / "no write" address ranges, a list of
   write-attempt ordinals the device rejects, and an access log (every attempt, newest first).
 
@@ -82,6 +83,10 @@ inductive Node where
   /-- `Integer` with `pValue` and `pValueCopy*` -/
   | integer (pValue : NodeId) (copies : List NodeId)
   | command (pValue : NodeId) (cmdValue : Int)
+  /-- `Boolean` with `pValue`, `OnValue`, `OffValue` -/
+  | boolean (pValue : NodeId) (onValue offValue : Int)
+  /-- `Enumeration` with `pValue` and the `<Value>`s of its entries -/
+  | enumeration (pValue : NodeId) (values : List Int)
   deriving Repr, DecidableEq, Inhabited
 
 /-- Node ids are positions in the list. -/
@@ -516,6 +521,7 @@ def evalInt : Nat → NodeId → M κ Int
         M.pure (applyMask v l w s)
       | _ => M.fail .invalidNode
     | some (.integer pv _) => evalInt fuel pv
+    | some (.enumeration pv _) => evalInt fuel pv
     | some _ => M.fail .invalidNode
     | none => M.panic
 
@@ -550,6 +556,12 @@ def setInt : Nat → NodeId → Int → M κ Unit
       invBy ops n
       setInt fuel pv v
       forEachM (fun c => setInt fuel c v) cs
+    | some (.enumeration pv vals) =>
+      -- `set_entry_by_value` (`enumeration.rs:127-146`)
+      if vals.contains v then do
+        invBy ops n
+        setInt fuel pv v
+      else M.fail .invalidData
     | some _ => M.fail .notWritable
     | none => M.panic
 
@@ -563,6 +575,7 @@ def readable : Nat → NodeId → R Bool
       | .int _ _ | .masked _ _ _ _ => .ok (r.acc ≠ .wo)
       | _ => .ok false
     | some (.integer pv _) => readable fuel pv
+    | some (.enumeration pv _) => readable fuel pv
     | some _ => .ok false
     | none => .panic
 
@@ -603,6 +616,16 @@ def opValue (fuel : Nat) (n : NodeId) : M κ Val :=
   | some (.integer _ _) => do
     let v ← evalInt ops p g fuel n
     M.pure (.int v)
+  | some (.enumeration _ _) => do
+    -- `IEnumeration::current_value`
+    let v ← evalInt ops p g fuel n
+    M.pure (.int v)
+  | some (.boolean pv on off) => do
+    -- `BooleanNode::value` (`boolean.rs:62-77`)
+    let v ← evalInt ops p g fuel pv
+    if v = on then M.pure (.bool true)
+    else if v = off then M.pure (.bool false)
+    else M.fail .invalidNode
   | _ => M.fail .invalidNode
 
 def opSetValue (fuel : Nat) (n : NodeId) (v : Val) : M κ Val :=
@@ -627,6 +650,20 @@ def opSetValue (fuel : Nat) (n : NodeId) (v : Val) : M κ Val :=
     match v with
     | .int i => do
       setInt ops p g fuel n i
+      M.pure .unit
+    | _ => M.fail .invalidNode
+  | some (.enumeration _ _) =>
+    match v with
+    | .int i => do
+      setInt ops p g fuel n i
+      M.pure .unit
+    | _ => M.fail .invalidNode
+  | some (.boolean pv on off) =>
+    match v with
+    | .bool b => do
+      -- `BooleanNode::set_value` (`boolean.rs:82-93`)
+      invBy ops n
+      setInt ops p g fuel pv (if b then on else off)
       M.pure .unit
     | _ => M.fail .invalidNode
   | _ => M.fail .invalidNode
